@@ -102,6 +102,15 @@ ExtraDocs == <<
    Obj(<<T("GeometryCollection"), <<"geometries", Arr(<<Obj(<<T("Polygon"), C(Arr(<<Arr(<<P2(1,1), P2(3,1), P2(3,4), P2(1,4), P2(1,1)>>)>>))>>), PointD, LineD, PolyD>>)>>>>),
    Obj(<<T("GeometryCollection"), <<"geometries", Arr(<<Obj(<<T("MultiPoint"), C(Arr(<<>>))>>), Obj(<<T("Point"), C(P2(4,4))>>),
                                                            Obj(<<T("GeometryCollection"), <<"geometries", Arr(<<>>)>>>>), LineD, Obj(<<T("Point"), C(P2(5,2))>>)>>)>>>>),
+   \* perfect rectangles with an out-of-range corner (AllowRects and RequireValid together), alone and nested
+   Obj(<<T("Polygon"), C(Arr(<<Arr(<<P2(1,1), P2(9,1), P2(9,4), P2(1,4), P2(1,1)>>)>>))>>),
+   Obj(<<T("Polygon"), C(Arr(<<Arr(<<P2(1,1), P2(3,1), P2(3,8), P2(1,8), P2(1,1)>>)>>))>>),
+   Obj(<<T("Feature"), <<"geometry", Obj(<<T("Polygon"), C(Arr(<<Arr(<<P2(1,1), P2(9,1), P2(9,4), P2(1,4), P2(1,1)>>)>>))>>)>>>>),
+   Obj(<<T("GeometryCollection"), <<"geometries", Arr(<<PointD, Obj(<<T("Polygon"), C(Arr(<<Arr(<<P2(1,1), P2(3,1), P2(3,8), P2(1,8), P2(1,1)>>)>>))>>)>>)>>>>),
+   \* foreign members that look like coordinates but are out of range: validity is about positions only
+   Obj(<<T("Point"), C(P2(1,2)), <<"bbox", Arr(<<Num(9), Num(9), Num(9), Num(9)>>)>>>>),
+   Obj(<<T("Feature"), <<"bbox", Arr(<<Num(8), Num(8), Num(9), Num(9)>>)>>, <<"geometry", LineD>>, <<"properties", Obj(<<<<"coordinates", Arr(<<Num(9), Num(9)>>)>>>>)>>>>),
+   Obj(<<T("FeatureCollection"), <<"bbox", Arr(<<Num(9), Num(8), Num(9), Num(8)>>)>>, <<"features", Arr(<<Obj(<<T("Feature"), <<"geometry", PolyD>>, <<"bbox", Arr(<<Num(1), Num(9), Num(3), Num(9)>>)>>>>)>>)>>>>),
    Obj(<<T("FeatureCollection"), <<"features", Arr(<<Obj(<<T("Feature"), <<"geometry", Obj(<<T("MultiPolygon"), C(Arr(<<>>))>>)>>>>),
                                                        Obj(<<T("Feature"), <<"geometry", PolyD>>>>), Obj(<<T("Feature"), <<"geometry", Obj(<<T("Point"), C(P2(4,4))>>)>>>>)>>)>>>>)
 >>
